@@ -2,8 +2,14 @@
 append is rejected before any byte is written; row count updated in place.
 
 Decided structurally (DESIGN 5/C03): R03.1 mode selection, R03.2 compatibility
-check dominance and flag->raise, R03.3 first-write vs append state, R03.4
+check dominance and mismatch->raise, R03.3 first-write vs append state, R03.4
 in-place SIZE update, R03.5 append position, R03.6 overwrite.
+
+The rules are stated over *paths* (python: a small symbolic executor that follows
+calls into helpers of the same class / module and substitutes temporaries; C++:
+the ordered stream events -- seek to start / end / elsewhere, output -- of a
+function with the helpers it calls summarised), not over the statements as they
+are laid out today; see DESIGN section 14.
 """
 import ast
 import copy
@@ -13,8 +19,7 @@ import re
 import string
 
 from vcheck import cfront
-from vcheck.cfg import eval_test
-from vcheck.core import PyRepo, AnalysisError, call_name, dotted_name, kwarg, norm, const_value
+from vcheck.core import PyRepo, AnalysisError, call_name, dotted_name, norm, const_value
 from vcheck import rules
 from vcheck.rules import cfg_of
 from vcheck.cstr import eval_c_string_cond, printf_directives
@@ -23,13 +28,14 @@ MANIFEST = dict(
     text="Structural rule checking (not a behavioural proof): decides, for every input and history at once, that (1) the "
          "append-mode fallback for a missing file is live, reaches the record-file constructor and names a mode the C++ "
          "constructor accepts without a dtype; (2) a dtype-compatibility check that raises dominates every byte-writing call "
-         "of SFile.write and every mismatch flag on both the binary and the text arm ends in a raise; (3) header text is "
+         "of SFile.write and every mismatch outcome of a dtype comparison on both the binary and the text arm ends in a raise; (3) header text is "
          "written only on the first write and the three row-count copies (file SIZE line, handle, header dict) are updated "
          "together; (4) the Python SIZE format and the C++ in-place updater agree in prefix, width (>=20) and conversion; "
          "(5) seek-to-end dominates every output call reachable from Records::Write; (6) append=False selects mode 'w'.",
     note="Not decided: byte-level equality of the concatenation, libc/file-system semantics, numpy dtype comparison "
          "semantics. Trusted: CPython ast, clang 14 AST, networkx dominators, SWIG naming convention, LP64.",
-    technique="static analysis: CFG dominance / def-use / flag-specialised reachability over Python ast and clang AST, printf-format agreement",
+    technique="static analysis: CFG dominance / def-use, path-sensitive symbolic execution with helper inlining over Python ast, "
+              "stream-event summaries over the clang AST, printf-format agreement",
 )
 
 BYTE_WRITERS = ("write_header_and_update_offset", "update_row_count", "Write")
@@ -70,9 +76,10 @@ def run(chk):
     r03_1(chk, repo, sf_write, SFile_open, Rec_open, cfun)
     r03_2(chk, repo, SFile_write)
     r03_3(chk, repo)
-    r03_4(chk, repo, cfun)
-    r03_5(chk, cfun)
-    r03_6(chk, sf_write, cfun)
+    ceff = _CEff(cfun)
+    r03_4(chk, repo, cfun, ceff)
+    r03_5(chk, cfun, ceff)
+    r03_6(chk, repo, sf_write, cfun)
     r03_7(chk, repo, Rec_write)
 
 
@@ -286,6 +293,13 @@ def _decide(e, facts):
         if k == key:
             return v if pol else (not v)
     return None
+
+
+def _targets(normal, lab):
+    """successors for outcome lab of a branch / loop head; the CFG labels an outcome that falls off the end of an enclosing
+    loop body 'back' instead of T/F"""
+    t = [m for m, labs in normal if lab in labs]
+    return t or [m for m, labs in normal if "back" in labs]
 
 
 class _St:
@@ -549,9 +563,8 @@ class _PX:
                         raised(st2)
                         continue
                     for lab, st3 in ([("F", st2)] if again else self.branch(val, st2, where)):
-                        for m, labs in normal:
-                            if lab in labs:
-                                work.append((m, loc, st3, vis2))
+                        for m in _targets(normal, lab):
+                            work.append((m, loc, st3, vis2))
             elif k == "loop":
                 a = n.ast
                 again = vis.count(n.id) >= 1
@@ -559,10 +572,10 @@ class _PX:
                     if r:
                         raised(st2)
                         continue
-                    for m, labs in normal:
-                        if "F" in labs:
-                            work.append((m, loc, st2, vis + (n.id,)))
-                        if "T" in labs and not again:
+                    for m in _targets(normal, "F"):
+                        work.append((m, loc, st2, vis + (n.id,)))
+                    if not again:
+                        for m in _targets(normal, "T"):
                             work.append((m, self.bind_for(a, itv, loc, n.id), st2, vis + (n.id,)))
             elif k == "with":
                 loc2, st2 = loc, st
@@ -683,9 +696,17 @@ def r03_1(chk, repo, sf_write, SFile_open, Rec_open, cfun):
     origin = set()
     for fi in (sf_write, SFile_open):
         for x in ast.walk(fi.node):
-            if isinstance(x, ast.Assign) and len(x.targets) == 1 and isinstance(x.targets[0], ast.Name) \
-                    and x.targets[0].id == "mode" and isinstance(x.value, ast.Constant) and isinstance(x.value.value, str):
-                origin.add((x.value.value, fi.where(x)))
+            vals = []
+            if isinstance(x, ast.Assign) and len(x.targets) == 1 and (
+                    (isinstance(x.targets[0], ast.Name) and x.targets[0].id == "mode")
+                    or (isinstance(x.targets[0], ast.Attribute) and x.targets[0].attr in ("_mode", "mode"))):
+                vals = [x.value]
+            elif isinstance(x, ast.keyword) and x.arg == "mode":
+                vals = [x.value]
+            for v in vals:
+                for y in ([v.body, v.orelse] if isinstance(v, ast.IfExp) else [v]):
+                    if isinstance(y, ast.Constant) and isinstance(y.value, str):
+                        origin.add((y.value, fi.where(y)))
     ctor = cfun["Records::Records"]
     ccfg = cfront.CCFG(ctor)
     cview = ccfg.view()
@@ -736,6 +757,55 @@ def r03_1(chk, repo, sf_write, SFile_open, Rec_open, cfun):
                    not stale, SFile_open.where(u.ast),
                    "use of %s after the fallback `%s` %s" % (sorted(used), norm(f.ast),
                                                             "sees the pre-fallback mode (no re-store in between)" if stale else "sees the re-stored mode"))
+    # (a'),(b') the same two statements on the paths of SFile.open with the helpers that construct the record file followed:
+    # when the mode is 'r+' and the file does not exist, the mode that reaches the Recfile constructor is a creating one;
+    # a literal mode that reaches it without a dtype is one for which the C++ constructor does not demand a dtype
+    def builds_recfile(f, depth=0):
+        return any(isinstance(x, ast.Call) and (call_name(x) == "Recfile" or (
+            depth < 3 and _callee_attr_funcs(repo, f, x) is not None and _callee_attr_funcs(repo, f, x) is not f
+            and builds_recfile(_callee_attr_funcs(repo, f, x), depth + 1))) for x in ast.walk(f.node))
+    try:
+        opaths = [st for k, _, st in _PX(repo, stop=("read_header", "close"), want=builds_recfile).run(SFile_open, {}) if k == "return"]
+    except _TooBig:
+        opaths = []
+    fb = [st for st in opaths
+          if _fact(st, lambda k: k[0] == "eq" and "'r+'" in k[1:]) is True
+          and _fact(st, lambda k: k[0] == "truth" and ("exists(" in k[1] or "isfile(" in k[1])) is False]
+    verdict = None
+    got = set()
+    for st in fb:
+        for e in _calls(st, "Recfile"):
+            m = e["kw"].get("mode", e["args"][1] if len(e["args"]) > 1 else None)
+            m = _with_eqs(m, st.facts[:e["nfacts"]]) if m is not None else None
+            if isinstance(m, ast.Constant) and isinstance(m.value, str):
+                got.add(m.value)
+                good = m.value[:1] != "r"
+                verdict = good if verdict is None else (verdict and good)
+            else:
+                got.add("<%s>" % (norm(m) if m is not None else "default"))
+    for st in fb:
+        if not _calls(st, "Recfile") and verdict is not False:
+            verdict = None
+    chk.ob("R03.1a", "esutil.sfile.SFile.open::fallback-reaches-constructor", verdict, SFile_open.where(),
+           "append to a missing file (mode 'r+', path does not exist): the record file is constructed with a creating mode "
+           "(%d such path(s), modes %s)" % (len(fb), sorted(got)))
+    if demand is not None:
+        seen = set()
+        for st in opaths:
+            for e in _calls(st, "Recfile"):
+                m = e["kw"].get("mode", e["args"][1] if len(e["args"]) > 1 else None)
+                m = _with_eqs(m, st.facts[:e["nfacts"]]) if m is not None else None
+                if not (isinstance(m, ast.Constant) and isinstance(m.value, str)):
+                    continue
+                has_dtype = "dtype" in e["kw"] or len(e["args"]) > 3
+                if (m.value, has_dtype) in seen:
+                    continue
+                seen.add((m.value, has_dtype))
+                needs = eval_c_string_cond(demand, "mMode", m.value)
+                chk.ob("R03.1b", "ctor-mode::%s::dtype=%s" % (m.value, has_dtype), True if (has_dtype or needs is False) else (None if needs is None else False),
+                       "%s:%s" % (SFile_open.where().rsplit(":", 1)[0], e["line"]),
+                       "mode %r reaches the record-file constructor %s a dtype; the C++ constructor %s one for it"
+                       % (m.value, "with" if has_dtype else "without", "demands" if needs else "does not demand"))
     # (d) Recfile.open refuses r+ on a missing file (so the fallback above is the only way)
     rcfg = cfg_of(Rec_open)
     guard = False
@@ -781,12 +851,24 @@ def r03_2(chk, repo, SFile_write):
     writers = [(n, c) for n in cfg.nodes for c in rules.stmts_calls(n) if _reaches_byte_writer(repo, SFile_write, c)]
     # the compatibility checker: a callee (or inline code) that compares the
     # file's dtype state with data.dtype and raises
-    checkers = []
+    cands = []
     for n in cfg.nodes:
         for c in rules.stmts_calls(n):
             callee = _callee_attr_funcs(repo, SFile_write, c)
-            if callee is not None and _is_compat_checker(callee):
-                checkers.append((n, c, callee))
+            if callee is not None and _is_compat_checker(repo, callee):
+                cands.append((n, c, callee))
+    # ... and on some path really compares the two (seen through temporaries and helpers)
+    paths_of = {}
+    for _, _, callee in cands:
+        if callee.qualname not in paths_of:
+            try:
+                paths_of[callee.qualname] = _PX(repo).run(callee, {})
+            except _TooBig:
+                paths_of[callee.qualname] = None
+    checkers = [t for t in cands if paths_of[t[2].qualname] and any(
+        _cmp_class(x) for _, _, st in paths_of[t[2].qualname] for _, _, x, _ in st.facts)]
+    if not checkers:
+        checkers = [t for t in cands if _is_compat_checker(repo, t[2], direct=True)]
     chk.ob("R03.2a", "esutil.sfile.SFile.write::compat-check-present", bool(checkers), SFile_write.where(),
            "SFile.write calls a dtype-compatibility checker (a method comparing the stored dtype with data.dtype "
            "that can raise): %s" % ([c[2].qualname for c in checkers] or "NONE FOUND"))
@@ -796,222 +878,461 @@ def r03_2(chk, repo, SFile_write):
         dom = any(view.dominates(cn, wn) and cn is not wn for cn, _, _ in checkers)
         chk.ob("R03.2b", "esutil.sfile.SFile.write::check-dominates::%s" % norm(wc.func), dom, SFile_write.where(wn.ast),
                "the compatibility check must dominate byte-writing call `%s`" % norm(wc))
-    # inside the checker(s): every assignment of a mismatch flag reaches a raise
+    # inside the checker(s): every way a stored-dtype / data.dtype comparison can come out "different" ends in a raise.
+    # Decided on the paths of the checker with its helpers followed, so a mismatch flag tested later, an early `return
+    # message` from a helper and a direct raise are the same thing.
     for _, _, callee in checkers:
         chk.analysed_unit(callee.qualname)
-        ccfg = cfg_of(callee)
-        cview = ccfg.view()
-        flags = rules.flag_sets(ccfg, True)
-        nflag = 0
-        for var, nodes in flags.items():
-            if not rules.uses_name_in_tests(ccfg, var):
-                continue
-            for n in nodes:
-                nflag += 1
-                arm = _arm_of(cview, n)
-                escapes = rules.can_return_normally_from(ccfg, n, {var: True})
-                chk.ob("R03.2c", "%s::flag-reaches-raise::%s::%s" % (callee.qualname, arm, _cond_key(cview, n)),
-                       not escapes, callee.where(n.ast),
-                       "mismatch flag `%s = True` set on the %s arm %s" % (
-                           var, arm, "can reach the normal return without any raise: the mismatch is accepted"
-                           if escapes else "always ends in a raise"))
+        paths = paths_of[callee.qualname]
+        if paths is None:
+            chk.ob("R03.2c", "%s::paths" % callee.qualname, None, callee.where(), "too many paths through the compatibility checker")
+            continue
+        for fi_ in {w[0].qualname for _, _, st in paths for _, _, _, w in st.facts}:
+            chk.analysed_unit(fi_)
+        # (arm, class, atom text) -> [mismatch accepted?, line]
+        seen = {}
+        classes = {"binary": set(), "text": set(), "common": set()}
+        for kind, _, st in paths:
+            arm = _arm(st)
+            for k, v, x, w in st.facts:
+                cls = _cmp_class(x) if k[0] == "eq" else None
+                if cls is None:
+                    continue
+                classes[arm].add(cls)
+                if not v:
+                    rec = seen.setdefault((arm, cls, _unindex(norm(x))), [False, w])
+                    if kind == "return":
+                        rec[0] = True
+        chk.ob("R03.2c", "%s::dtype-comparisons-found" % callee.qualname, True if seen else None, callee.where(),
+               "comparisons of the stored dtype with the dtype of the new rows whose 'different' outcome was followed: %d" % len(seen))
+        for (arm, cls, text), (escapes, w) in sorted(seen.items(), key=lambda t: t[0]):
+            chk.ob("R03.2c", "%s::flag-reaches-raise::%s::%s" % (callee.qualname, arm, cls if cls != "other" else text),
+                   not escapes, "%s:%s" % (callee.where().rsplit(":", 1)[0], w[1]),
+                   "the mismatch outcome of `%s` on the %s arm %s" % (
+                       text, arm, "can reach the normal return without any raise: the mismatch is accepted"
+                       if escapes else "always ends in a raise"))
         # the binary arm must contain an exact dtype comparison that leads to rejection
-        bin_cmp = []
-        for n in ccfg.nodes:
-            if n.kind == "branch":
-                t = n.ast.test
-                texts = rules.attr_texts(t)
-                if any(x.endswith("_dtype") for x in texts) and any(x.endswith("data.dtype") or x == "data.dtype" for x in texts):
-                    bin_cmp.append(n)
-        chk.ob("R03.2d", "%s::binary-exact-dtype-comparison" % callee.qualname, bool(bin_cmp), callee.where(),
+        exact = sorted({(arm, _unindex(norm(x)), w[1]) for _, _, st in paths for arm in [_arm(st)]
+                        for k, v, x, w in st.facts if k[0] == "eq" and _cmp_class(x) == "exact"})
+        chk.ob("R03.2d", "%s::binary-exact-dtype-comparison" % callee.qualname, True if exact else None, callee.where(),
                "binary appends demand an exact dtype match: comparison of the stored dtype with data.dtype %s"
-               % ("found: " + norm(bin_cmp[0].ast.test) if bin_cmp else "NOT FOUND"))
-        for n in bin_cmp:
-            # mismatch outcome of that comparison must not reach the normal exit
-            op = n.ast.test.ops[0] if isinstance(n.ast.test, ast.Compare) else None
-            mism_label = "T" if isinstance(op, ast.NotEq) else ("F" if isinstance(op, ast.Eq) else None)
-            if mism_label is None:
-                chk.observe("R03.2d", callee.where(n.ast), "comparison form not recognised: %s" % norm(n.ast.test))
-                continue
-            ok = _mismatch_edge_raises(ccfg, n, mism_label)
-            chk.ob("R03.2d", "%s::binary-mismatch-raises" % callee.qualname, ok, callee.where(n.ast),
-                   "the mismatch outcome of `%s` %s" % (norm(n.ast.test), "always raises" if ok else
+               % ("found: " + exact[0][1] if exact else "NOT RECOGNISED on any path"))
+        if exact:
+            # every normal return on the binary arm of a file that already holds rows has seen the two dtypes compare equal
+            bad = []
+            nbin = 0
+            for kind, _, st in paths:
+                if kind != "return" or _arm(st) == "text" or _fact(st, _is_none_of("self._dtype")) is True:
+                    continue
+                nbin += 1
+                ok_ = any(k[0] == "eq" and v and _cmp_class(x) == "exact" for k, v, x, _ in st.facts)
+                if not ok_:
+                    bad.append(st)
+            chk.ob("R03.2d", "%s::binary-accepts-only-equal-dtype" % callee.qualname, not bad if nbin else None, callee.where(),
+                   "normal returns on the binary arm (file already has rows): %d, of which %d without the dtypes having compared equal%s"
+                   % (nbin, len(bad), "" if not bad else " -- e.g. after " + "; ".join("%s=%s" % (k[1:], v) for k, v, _, _ in bad[0].facts[-3:])))
+            esc = [st for kind, _, st in paths if kind == "return"
+                   and any(k[0] == "eq" and not v and _cmp_class(x) == "exact" for k, v, x, _ in st.facts)]
+            chk.ob("R03.2d", "%s::binary-mismatch-raises" % callee.qualname, not esc,
+                   "%s:%s" % (callee.where().rsplit(":", 1)[0], exact[0][2]),
+                   "the mismatch outcome of `%s` %s" % (exact[0][1], "always raises" if not esc else
                                                        "can reach the normal return: incompatible binary append accepted"))
-        # text arm: name, type (byte-order-free), dims compared
-        text_cmps = [norm(n.ast.test) for n in ccfg.nodes if n.kind == "branch"]
-        want = {"field count": lambda t: "nnames" in t or "len(" in t and "names" in t,
-                "field name": lambda t: "[0]" in t and "!=" in t,
-                "field type sans byte order": lambda t: "[1][1:]" in t and "!=" in t,
-                "field shape": lambda t: "[2]" in t and "!=" in t}
-        for label, p in want.items():
-            hit = [t for t in text_cmps if p(t)]
-            chk.ob("R03.2e", "%s::text-arm-compares::%s" % (callee.qualname, label), bool(hit), callee.where(),
-                   "text appends compare %s: %s" % (label, hit[0] if hit else "NO SUCH COMPARISON"))
+        # text arm: count, name, type (byte-order-free), dims compared
+        want = {"field count": "count", "field name": "name", "field type sans byte order": "type", "field shape": "shape"}
+        for label, cls in want.items():
+            hit = cls in classes["text"] or cls in classes["common"]
+            chk.ob("R03.2e", "%s::text-arm-compares::%s" % (callee.qualname, label), hit, callee.where(),
+                   "text appends compare %s: %s" % (label, "found" if hit else "NO SUCH COMPARISON"))
 
 
-def _is_compat_checker(fi):
-    has_raise = any(isinstance(x, ast.Raise) for x in ast.walk(fi.node))
-    texts = set()
-    for x in ast.walk(fi.node):
-        if isinstance(x, ast.Attribute):
-            texts.add(norm(x))
+def _is_compat_checker(repo, fi, direct=False):
+    """a function that (with the helpers it calls, unless direct) mentions the handle's stored dtype and data.dtype and can raise"""
+    has_raise, texts = _raise_and_attrs(repo, fi, set(), 9 if direct else 0)
     return has_raise and "data.dtype" in texts and any(t.endswith("._dtype") for t in texts)
 
 
-def _arm_of(view, n):
-    for t, lab in rules.controlling_tests(view, n):
-        if "_delim is None" in t:
-            return "binary" if lab == "T" else "text"
-        if "_delim is not None" in t:
-            return "text" if lab == "T" else "binary"
-    return "common"
+def _raise_and_attrs(repo, fi, seen, depth):
+    seen.add(fi.qualname)
+    has_raise = False
+    texts = set()
+    for x in ast.walk(fi.node):
+        if isinstance(x, ast.Raise):
+            has_raise = True
+        elif isinstance(x, ast.Attribute):
+            texts.add(norm(x))
+        elif isinstance(x, ast.Call) and depth < 2:
+            callee = _callee_attr_funcs(repo, fi, x)
+            if callee is not None and callee.qualname not in seen:
+                r, t = _raise_and_attrs(repo, callee, seen, depth + 1)
+                has_raise = has_raise or r
+                texts |= t
+    return has_raise, texts
 
 
-def _cond_key(view, n):
-    ts = rules.controlling_tests(view, n)
-    return ts[-1][0] if ts else "top"
+def _arm(st):
+    """binary / text / common: which way the path went at the test of the delimiter (binary files have none)"""
+    v = _fact(st, _is_none_of("self._delim"))
+    if v is None:
+        v2 = _fact(st, lambda k: k == ("truth", "self._delim"))
+        v = None if v2 is None else (not v2)
+    return "common" if v is None else ("binary" if v else "text")
 
 
-def _mismatch_edge_raises(cfg, bnode, label):
-    """follow the edge `label` of branch bnode; with flags set along the way
-    (x = True assignments) decide whether the normal exit is reachable"""
-    import networkx as nx
-    # collect flag assignments directly under that edge
-    succs = [j for j in cfg.g.successors(bnode.id) if label in cfg.g[bnode.id][j]["labels"]]
-    for j in succs:
-        n = cfg.node(j)
-        flags = {}
-        cur = n
-        # walk straight-line code collecting constant flag sets
-        seen = set()
-        while cur is not None and cur.id not in seen:
-            seen.add(cur.id)
-            a = cur.ast
-            if cur.kind == "raise":
-                break
-            if cur.kind == "stmt" and isinstance(a, ast.Assign) and isinstance(a.targets[0], ast.Name) \
-                    and isinstance(a.value, ast.Constant):
-                flags[a.targets[0].id] = a.value.value
-            nxt = list(cfg.g.successors(cur.id))
-            if cur.kind != "stmt" or len(nxt) != 1:
-                break
-            cur = cfg.node(nxt[0])
-        if n.kind == "raise":
-            continue
-        v = cfg.specialise(flags=flags)
-        if cfg.exit.id in nx.descendants(v.g, n.id) or n.id == cfg.exit.id:
-            return False
-    return True
+def _unindex(t):
+    return re.sub(r"__i\d+__", "i", t)
+
+
+_CMP_CLASSES = {"X": "exact", "len(X.names)": "count", "len(X.descr)": "count", "len(X)": "count", "len(X.fields)": "count",
+                "X.names": "name", "X.names[i]": "name", "X.descr[i][0]": "name",
+                "X.descr[i][1][1:]": "type", "X.descr[i][2]": "shape", "X.descr[i][2:]": "shape",
+                "len(X.descr[i])": "dim", "X.descr": "descr", "X.descr[i]": "field"}
+
+
+def _cmp_class(x):
+    """class of an ==/!= between something derived from the stored dtype (self._dtype) and the same thing derived from the
+    dtype of the new rows (data.dtype): exact, count, name, type, shape, dim, descr, field, other; None for anything else"""
+    if not (isinstance(x, ast.Compare) and len(x.ops) == 1 and isinstance(x.ops[0], (ast.Eq, ast.NotEq))):
+        return None
+    sides = {}
+    for e in (x.left, x.comparators[0]):
+        names = {norm(y) for y in ast.walk(e) if isinstance(y, (ast.Attribute, ast.Name))}
+        s = "self._dtype" in names
+        d = "data.dtype" in names or "data" in names
+        if s == d:
+            return None
+        sides["S" if s else "D"] = _unindex(norm(e))
+    if len(sides) != 2:
+        return None
+    ts = sides["S"].replace("self._dtype", "X")
+    td = sides["D"].replace("data.dtype", "X")
+    if ts != td:
+        return "other"
+    return _CMP_CLASSES.get(ts, "other")
 
 
 # ---------------------------------------------------------------------------
+def _text_in(v, texts):
+    return v is not None and norm(v) in texts
+
+
 def r03_3(chk, repo):
+    """first write vs append: decided on the paths of _write_header (new helpers followed, the calls the rule speaks about
+    -- _make_header, _update_size, _get_size_string -- kept as events) and of _update_size"""
     wh = repo.func("esutil.sfile.SFile._write_header")
     chk.analysed_unit(wh.qualname)
-    cfg = cfg_of(wh)
-    view = cfg.view()
-    hdr_writes = rules.calls_named(cfg, "write_header_and_update_offset")
-    chk.ob("R03.3a", "esutil.sfile.SFile._write_header::header-writer-present", len(hdr_writes) == 1, wh.where(),
-           "exactly one call writes header text (found %d)" % len(hdr_writes))
-    for n, c in hdr_writes:
-        ts = rules.controlling_tests(view, n)
-        ok = any((t in ("self._hdr is not None",) and lab == "F") or (t in ("self._hdr is None",) and lab == "T") for t, lab in ts)
-        chk.ob("R03.3a", "esutil.sfile.SFile._write_header::header-only-on-first-write", ok, wh.where(n.ast),
-               "header text is written only when no header exists yet (controlling tests: %s)" % ts)
-    # append arm: row-count update is called with the size of the new chunk
-    upd = [(n, c) for n in cfg.nodes for c in rules.stmts_calls(n) if call_name(c) == "_update_size"]
-    ok = False
-    for n, c in upd:
-        ts = rules.controlling_tests(view, n)
-        on_append = any((t == "self._hdr is not None" and lab == "T") or (t == "self._hdr is None" and lab == "F") for t, lab in ts)
-        arg_ok = c.args and norm(c.args[0]) in ("data.size", "len(data)", "data.shape[0]")
-        ok = ok or (on_append and arg_ok)
-    chk.ob("R03.3b", "esutil.sfile.SFile._write_header::append-updates-count", ok, wh.where(),
-           "on the append arm the stored row count is increased by the chunk size (data.size)")
-    # first-write arm: size string and _size come from data.size; header retained from the user's dict
-    first = {"self._size": None, "size_string": None}
-    for n in cfg.nodes:
-        a = n.ast
-        if n.kind == "stmt" and isinstance(a, ast.Assign):
-            t = norm(a.targets[0])
-            if t == "self._size":
-                first["self._size"] = norm(a.value)
-            if isinstance(a.value, ast.Call) and call_name(a.value) == "_get_size_string":
-                first["size_string"] = norm(a.value.args[0]) if a.value.args else None
-    chk.ob("R03.3c", "esutil.sfile.SFile._write_header::first-size", first["self._size"] in ("data.size", "len(data)"),
-           wh.where(), "first write records _size = data.size (found %s)" % first["self._size"])
-    chk.ob("R03.3c", "esutil.sfile.SFile._write_header::first-size-string", first["size_string"] in ("data.size", "len(data)", "self._size"),
-           wh.where(), "SIZE line of a new file is formatted from data.size (found %s)" % first["size_string"])
+    CHUNK = ("data.size", "len(data)", "data.shape[0]")
+    first = _is_none_of("self._hdr")        # the atom `self._hdr is None` in terms of the handle state on entry
+    try:
+        paths = [(k, v, st) for k, v, st in _PX(repo, stop=("_make_header", "_update_size", "_get_size_string")).run(wh, {})
+                 if k == "return"]
+    except _TooBig:
+        paths = None
+    if not paths:
+        chk.ob("R03.3a", "esutil.sfile.SFile._write_header::paths", None, wh.where(), "paths through _write_header not enumerable")
+    else:
+        hw = [(st, e) for _, _, st in paths for e in _calls(st, "write_header_and_update_offset")]
+        per_path = [len(_calls(st, "write_header_and_update_offset")) for _, _, st in paths]
+        chk.ob("R03.3a", "esutil.sfile.SFile._write_header::header-writer-present", bool(hw) and max(per_path) == 1, wh.where(),
+               "header text is written by exactly one call on a path (calls per path: %s)" % sorted(set(per_path)))
+        ok = bool(hw) and all(_fact(st, first, e["nfacts"]) is True for st, e in hw)
+        chk.ob("R03.3a", "esutil.sfile.SFile._write_header::header-only-on-first-write", ok, wh.where(),
+               "header text is written only when no header exists yet (self._hdr is None on %d of %d writing paths)"
+               % (sum(1 for st, e in hw if _fact(st, first, e["nfacts"]) is True), len(hw)))
+        # append arm: row-count update is called with the size of the new chunk
+        app = [st for _, _, st in paths if _fact(st, first) is False]
+        ok = bool(app) and all(any(e["args"] and _text_in(e["args"][0], CHUNK) for e in _calls(st, "_update_size")) for st in app)
+        chk.ob("R03.3b", "esutil.sfile.SFile._write_header::append-updates-count", ok, wh.where(),
+               "on the append arm the stored row count is increased by the chunk size (data.size): %d append path(s), _update_size args %s"
+               % (len(app), sorted({norm(e["args"][0]) for st in app for e in _calls(st, "_update_size") if e["args"]})))
+        # first-write arm: size string and _size come from data.size; header retained from the user's dict
+        fw = [st for st, _ in hw]
+        sizes = sorted({norm(st.heap["self._size"]) if "self._size" in st.heap else "<not set>" for st in fw})
+        chk.ob("R03.3c", "esutil.sfile.SFile._write_header::first-size", bool(fw) and all(s in CHUNK[:2] for s in sizes),
+               wh.where(), "first write records _size = data.size (found %s)" % sizes)
+        strs = sorted({norm(e["args"][0]) if e["args"] else "<no arg>" for st in fw for e in _calls(st, "_get_size_string")})
+        ok = bool(fw) and all(len(_calls(st, "_get_size_string")) == 1 for st in fw) and all(s in CHUNK[:2] for s in strs)
+        chk.ob("R03.3c", "esutil.sfile.SFile._write_header::first-size-string", ok,
+               wh.where(), "SIZE line of a new file is formatted from data.size (found %s)" % strs)
+        # header retention: user header is only consulted when building a *new* header
+        mh = [(st, e) for _, _, st in paths for e in _calls(st, "_make_header")]
+        ok = bool(mh) and all(_fact(st, first, e["nfacts"]) is True for st, e in mh)
+        chk.ob("R03.3e", "esutil.sfile.SFile._write_header::header-built-once", ok, wh.where(),
+               "the header dict is (re)built from the user's header only on the first write; appends keep the stored one")
 
     us = repo.func("esutil.sfile.SFile._update_size")
     chk.analysed_unit(us.qualname)
-    ucfg = cfg_of(us)
-    # pairing: file SIZE line, self._size and self._hdr['_SIZE'] all get the same new value = old + add
-    newval = None
-    stores = {}
-    call_arg = None
-    for n in ucfg.nodes:
-        a = n.ast
-        if n.kind == "stmt" and isinstance(a, ast.Assign):
-            stores[norm(a.targets[0])] = a.value
-        for c in rules.stmts_calls(n):
-            if call_name(c) == "update_row_count":
-                call_arg = c.args[0] if c.args else None
-
-    def resolve(e, depth=0):
-        while isinstance(e, ast.Name) and e.id in stores and depth < 5:
-            e = stores[e.id]
-            depth += 1
-        return e
-
-    def is_sum(e):
-        e = resolve(e)
-        if isinstance(e, ast.BinOp) and isinstance(e.op, ast.Add):
-            l, r = resolve(e.left), resolve(e.right)
-            ts = {norm(l), norm(r)}
-            return "self._size" in ts and (ts - {"self._size"}) <= {us.params[1] if len(us.params) > 1 else "size_add"}
-        return False
-
-    chk.ob("R03.3d", "esutil.sfile.SFile._update_size::file-count", call_arg is not None and is_sum(call_arg), us.where(),
-           "the in-file SIZE line is rewritten with old size + added rows (arg: %s)" % (norm(call_arg) if call_arg is not None else None))
-    for tgt in ("self._size", "self._hdr['_SIZE']"):
-        v = stores.get(tgt)
-        chk.ob("R03.3d", "esutil.sfile.SFile._update_size::%s" % tgt, v is not None and is_sum(v), us.where(),
-               "%s is updated to old size + added rows together with the file (found %s)" % (tgt, norm(v) if v is not None else None))
-    # header retention: user header is only consulted when building a *new* header
-    mh = [(n, c) for n in cfg.nodes for c in rules.stmts_calls(n) if call_name(c) == "_make_header"]
-    ok = bool(mh)
-    for n, c in mh:
-        ts = rules.controlling_tests(view, n)
-        ok = ok and any((t == "self._hdr is not None" and lab == "F") or (t == "self._hdr is None" and lab == "T") for t, lab in ts)
-    chk.ob("R03.3e", "esutil.sfile.SFile._write_header::header-built-once", ok, wh.where(),
-           "the header dict is (re)built from the user's header only on the first write; appends keep the stored one")
+    # pairing: file SIZE line, self._size and self._hdr['_SIZE'] all get the same new value = old + add, on every normal return
+    add = us.params[1] if len(us.params) > 1 else "size_add"
+    want = sorted(["self._size", add])
+    try:
+        upaths = [st for k, _, st in _PX(repo).run(us, {}) if k == "return"]
+    except _TooBig:
+        upaths = []
+    found = {"file-count": [], "self._size": [], "self._hdr['_SIZE']": []}
+    for st in upaths:
+        cs = _calls(st, "update_row_count")
+        found["file-count"].append(cs[-1]["args"][0] if cs and cs[-1]["args"] else None)
+        for tgt in ("self._size", "self._hdr['_SIZE']"):
+            found[tgt].append(st.heap.get(tgt))
+    recognised = bool(upaths) and any(v is not None for v in found["file-count"])
+    what = {"file-count": "the in-file SIZE line is rewritten with old size + added rows",
+            "self._size": "self._size is updated to old size + added rows together with the file",
+            "self._hdr['_SIZE']": "self._hdr['_SIZE'] is updated to old size + added rows together with the file"}
+    for tgt in ("file-count", "self._size", "self._hdr['_SIZE']"):
+        vals = found[tgt]
+        ok = (all(v is not None and _sum_terms(v) == want for v in vals)) if recognised else None
+        chk.ob("R03.3d", "esutil.sfile.SFile._update_size::%s" % tgt, ok, us.where(),
+               "%s, on each of the %d normal return path(s) (found %s)" % (
+                   what[tgt], len(upaths), sorted({norm(v) if v is not None else "<not updated>" for v in vals}) if upaths
+                   else "no row-count update recognised"))
 
 
 # ---------------------------------------------------------------------------
-def r03_4(chk, repo, cfun):
+# C++ side: what a function does to the data stream, in order (used by R03.4c and R03.5).
+#
+# events: 'pos:start' (rewind, fseek(fp,0,SEEK_SET)), 'pos:end' (fseek(fp,0,SEEK_END)), 'pos:set' / 'pos:cur' (absolute /
+# relative seek to somewhere else), 'pos:unk' (a seek whose arguments are not literal), 'out' (bytes written to the stream),
+# 'out:fmt' (the bytes of a printf format written: directly, or through a buffer filled by snprintf/sprintf).  A call to a
+# function whose body is available (methods of the class, file-local helpers: looked up on demand) contributes the event
+# sequences of its own normal-exit paths, so `goto_end()` / `seek_to_end(fp)` is a seek to the end and `fputs(buf, fp)`
+# after `snprintf(buf, n, fmt, ...)` is the formatted line.  Sequences are kept as sets per CFG node (consecutive repeats
+# collapsed), so loops and switches do not multiply paths.
+# ---------------------------------------------------------------------------
+POS_PRIMS = ("rewind", "fseek", "fseeko", "myfseeko", "fseeko64", "_fseeki64", "fsetpos")
+OUT_PRIMS = ("fwrite", "fprintf", "fputc", "fputs", "putc", "vfprintf")
+FMT_PRIMS = ("snprintf", "sprintf", "vsnprintf")
+OUTPUT_PRIMS = ("fwrite", "fprintf", "fputc", "fputs", "putc")     # for the who-may-write call-graph rule
+
+
+class _CEff:
+    def __init__(self, cfun, tu="records"):
+        self.cfun = cfun
+        self.tu = tu
+        self.memo = {}
+        self.extra = {}
+        self.busy = set()
+        self._src = None
+        self.partial = {}
+        self.touched = set()
+        self.track = set()      # printf formats whose output is told apart from other output ('out:fmt:<format>')
+
+    # -- bodies of functions that the class filter of the TU dump leaves out (file-local helpers) ---------------------
+    def lookup(self, name):
+        if not name:
+            return None
+        if name in self.cfun:
+            return self.cfun[name]
+        if name not in self.extra:
+            self.extra[name] = self._load(name) if self._defined_in_source(name) else None
+        return self.extra[name]
+
+    def _defined_in_source(self, name):
+        if self._src is None:
+            from vcheck.core import REPO
+            spec = cfront.TUS[self.tu]
+            txt = []
+            paths = [os.path.join(REPO, spec["path"])]
+            d = os.path.dirname(paths[0])
+            paths += [os.path.join(d, f) for f in sorted(os.listdir(d)) if f.endswith((".h", ".hpp"))] if os.path.isdir(d) else []
+            for p in paths:
+                try:
+                    txt.append(open(p, encoding="utf-8", errors="replace").read())
+                except OSError:
+                    pass
+            self._src = "\n".join(txt)
+        return re.search(r"(?m)^[^\n;(){}=]*\b%s\s*\([^;{}]*\)\s*(?:const\s*)?\{" % re.escape(name), self._src) is not None
+
+    def _load(self, name):
+        key = "%s@%s" % (self.tu, name)
+        cfront.TUS[key] = dict(cfront.TUS[self.tu], filt=name)
+        try:
+            decls = cfront.load_tu(key, _raw=True)
+        except AnalysisError:
+            return None
+        finally:
+            cfront.TUS.pop(key, None)
+        d = cfront.functions(decls).get(name)
+        return d if d is not None and cfront.has_body(d) else None
+
+    # -- events -----------------------------------------------------------------------------------------------------------
+    @staticmethod
+    def _lit(a):
+        sa = cfront.strip(a)
+        return _cstr(sa.get("value")) if sa.get("kind") == "StringLiteral" else None
+
+    def call_events(self, c, fmtbufs):
+        """set of event tuples a call contributes"""
+        nm = cfront.callee_name(c)
+        args = cfront.call_args(c)
+        r = [cfront.render(a) for a in args]
+        if nm == "rewind":
+            return {("pos:start",)}
+        if nm in POS_PRIMS:
+            if len(r) >= 3 and r[1] == "0" and r[2] == "2":
+                return {("pos:end",)}
+            if len(r) >= 3 and r[1] == "0" and r[2] == "0":
+                return {("pos:start",)}
+            if len(r) >= 3 and r[2] in ("0", "1", "2"):
+                return {("pos:set" if r[2] == "0" else "pos:cur" if r[2] == "1" else "pos:set",)}
+            return {("pos:unk",)}
+        if nm in OUT_PRIMS:
+            stream = r[0] if nm in ("fprintf", "vfprintf") else (r[-1] if r else "")
+            if stream in ("stderr", "stdout"):
+                return {()}
+            if nm in ("fprintf", "vfprintf"):
+                lits = [self._lit(a) for a in args[1:2]]
+                if lits and lits[0] in self.track:
+                    return {("out:fmt:" + lits[0],)}
+                if lits and lits[0] == "%s" and len(r) > 2 and fmtbufs.get(r[2]) in self.track:
+                    return {("out:fmt:" + fmtbufs[r[2]],)}
+            elif r and fmtbufs.get(r[0]) in self.track:
+                return {("out:fmt:" + fmtbufs[r[0]],)}
+            return {("out",)}
+        if nm in FMT_PRIMS:
+            return {()}
+        d = self.lookup(nm)
+        if d is not None:
+            return self.summary(nm, d)
+        return {()}
+
+    def fmt_buffers(self, decl):
+        """{buffer expression: format literal} for snprintf/sprintf calls of a function"""
+        out = {}
+        for c in cfront.calls_in(decl):
+            if cfront.callee_name(c) in FMT_PRIMS:
+                args = cfront.call_args(c)
+                lits = [self._lit(a) for a in args[1:]]
+                lits = [l for l in lits if l is not None]
+                if args and lits:
+                    out[cfront.render(args[0])] = lits[0]
+        return out
+
+    @staticmethod
+    def _cat(seq, ev):
+        for e in ev:
+            if not seq or seq[-1] != e:
+                seq = seq + (e,)
+        if len(seq) > 12:
+            seq = seq[:4] + ("...",) + seq[-7:]
+        return seq
+
+    def node_events(self, n, fmtbufs):
+        """set of event tuples of one CFG node (its calls, innermost first)"""
+        seqs = {()}
+        for c in reversed(cfront.node_calls(n)):
+            evs = self.call_events(c, fmtbufs)
+            seqs = {self._cat(s, e) for s in seqs for e in evs}
+        return seqs
+
+    def flow(self, decl):
+        """(ccfg, IN): IN[node id] = set of event sequences on the ways from entry to just before the node"""
+        ccfg = cfront.CCFG(decl)
+        fmtbufs = self.fmt_buffers(decl)
+        IN = {n.id: set() for n in ccfg.nodes}
+        IN[ccfg.entry.id] = {()}
+        nev = {n.id: self.node_events(n, fmtbufs) for n in ccfg.nodes}
+        work = [ccfg.entry.id]
+        while work:
+            i = work.pop()
+            outs = {self._cat(s, e) for s in IN[i] for e in nev[i]}
+            if len(outs) > 400:
+                raise _TooBig()
+            for j in ccfg.g.successors(i):
+                if not outs <= IN[j]:
+                    IN[j] |= outs
+                    work.append(j)
+        return ccfg, IN, nev
+
+    def summary(self, name, decl):
+        """event sequences of the normal-exit paths of a function (recursive functions: iterated from 'no events' until stable)"""
+        key = id(decl)
+        if key in self.memo:
+            return self.memo[key]
+        if key in self.busy:
+            self.touched.add(key)
+            return self.partial.get(key, {()})
+        self.busy.add(key)
+        try:
+            for _ in range(6):
+                self.touched.discard(key)
+                ccfg, IN, _nev = self.flow(decl)
+                res = set(IN[ccfg.exit.id]) or {()}
+                if key not in self.touched or res == self.partial.get(key):
+                    break
+                self.partial[key] = res
+        finally:
+            self.busy.discard(key)
+            self.partial.pop(key, None)
+        if not (self.touched & self.busy):
+            self.memo[key] = res        # nothing it depends on is still being iterated
+        self.touched.discard(key)
+        return res
+
+
+def _brace_to_printf(fmt):
+    """printf spelling of a str.format template whose fields are plain decimal integers with a width, else None"""
+    out = []
+    try:
+        parts = list(string.Formatter().parse(fmt))
+    except ValueError:
+        return None
+    for lit, field, spec, conv in parts:
+        out.append(lit.replace("%", "%%"))
+        if field is None:
+            continue
+        m = re.match(r"^(?:( )?([<>]))?(0)?(\d+)?([dn]?)$", spec or "")
+        if conv or m is None:
+            return None
+        out.append("%" + ("-" if m.group(2) == "<" else "") + (m.group(3) or "") + (m.group(4) or "") + "d")
+    return "".join(out)
+
+
+def _py_printf(v):
+    """the printf-style format an expression formats one integer with: '...%20d' % n, '...{:20d}'.format(n), f'...{n:20d}'"""
+    if isinstance(v, ast.BinOp) and isinstance(v.op, ast.Mod) and isinstance(v.left, ast.Constant) and isinstance(v.left.value, str):
+        return v.left.value
+    if isinstance(v, ast.Call) and isinstance(v.func, ast.Attribute) and v.func.attr == "format" \
+            and isinstance(v.func.value, ast.Constant) and isinstance(v.func.value.value, str) and len(v.args) + len(v.keywords) == 1:
+        return _brace_to_printf(v.func.value.value)
+    if isinstance(v, ast.JoinedStr):
+        t = ""
+        for x in v.values:
+            if isinstance(x, ast.Constant):
+                t += str(x.value).replace("{", "{{").replace("}", "}}")
+            elif isinstance(x, ast.FormattedValue) and x.conversion == -1:
+                spec = "".join(y.value for y in x.format_spec.values if isinstance(y, ast.Constant)) if x.format_spec is not None else ""
+                if x.format_spec is not None and not all(isinstance(y, ast.Constant) for y in x.format_spec.values):
+                    return None
+                t += "{:%s}" % spec
+            else:
+                return None
+        return _brace_to_printf(t)
+    return None
+
+
+def r03_4(chk, repo, cfun, ceff):
     """SIZE line: python writer vs C++ in-place updater; rewind -> fprintf -> fseek(END)"""
     gs = repo.func("esutil.sfile.SFile._get_size_string")
-    pyfmt = None
-    for x in ast.walk(gs.node):
-        if isinstance(x, ast.BinOp) and isinstance(x.op, ast.Mod) and isinstance(x.left, ast.Constant) and isinstance(x.left.value, str):
-            pyfmt = x.left.value
+    chk.analysed_unit(gs.qualname)
+    try:
+        rets = [v for k, v, _ in _PX(repo).run(gs, {}) if k == "return"]
+    except _TooBig:
+        rets = []
+    pyfmts = {_py_printf(v) for v in rets}
+    pyfmt = next(iter(pyfmts)) if len(pyfmts) == 1 else None
     urc = cfun["Records::update_row_count"]
-    cfmt = None
-    seq = []
-    ccfg = cfront.CCFG(urc)
-    for n in ccfg.nodes:
-        for c in cfront.node_calls(n):
-            nm = cfront.callee_name(c)
-            if nm in ("rewind", "fprintf", "fseek", "fseeko", "myfseeko"):
-                seq.append((nm, n, c))
-            if nm == "fprintf":
-                for a in cfront.call_args(c):
-                    sa = cfront.strip(a)
-                    if sa.get("kind") == "StringLiteral":
-                        cfmt = _cstr(sa.get("value"))
-    chk.ob("R03.4a", "size-line::formats-found", pyfmt is not None and cfmt is not None, gs.where(),
-           "python SIZE format %r, C++ SIZE format %r" % (pyfmt, cfmt))
+    # the format of the line the C++ updater writes: the literal of the fprintf / snprintf that takes the row count
+    cfmts = set()
+    for c in cfront.calls_in(urc):
+        if cfront.callee_name(c) in ("fprintf",) + FMT_PRIMS:
+            for a in cfront.call_args(c):
+                l = _CEff._lit(a)
+                if l is not None and printf_directives(l)["directives"] and l != "%s":
+                    cfmts.add(l)
+    cfmt = next(iter(cfmts)) if len(cfmts) == 1 else None
+    chk.ob("R03.4a", "size-line::formats-found", True if (pyfmt is not None and cfmt is not None) else None, gs.where(),
+           "python SIZE format %r, C++ SIZE format %r%s" % (pyfmt, cfmt, "" if pyfmt is not None and cfmt is not None else
+                                                           " -- not recognised (python returns: %s)" % [norm(v) for v in rets]))
     if pyfmt is not None and cfmt is not None:
         pd = printf_directives(pyfmt)
         cd = printf_directives(cfmt)
@@ -1026,19 +1347,21 @@ def r03_4(chk, repo, cfun):
         chk.ob("R03.4b", "size-line::width-holds-int64", (wp or 0) >= 20 and (wc or 0) >= 20, gs.where(),
                "width >= 20 holds any 64-bit count without growing the line")
         okconv = bool(pd["directives"]) and bool(cd["directives"]) and pd["directives"][0]["conv"] in "di" and cd["directives"][0]["conv"] in "di" \
-            and cd["directives"][0]["length"] in ("l", "ll")
+            and cd["directives"][0]["length"] in ("l", "ll") and pd["directives"][0]["flags"] == cd["directives"][0]["flags"]
         chk.ob("R03.4b", "size-line::decimal-long", okconv, "esutil/recfile/records.cpp",
                "both use a decimal conversion and the C++ length modifier matches the `long` argument")
         chk.ob("R03.4b", "size-line::one-line", cfmt.endswith("\n") and cfmt.count("\n") == 1 and "\n" not in pyfmt, "esutil/recfile/records.cpp",
                "C++ format ends the line (python joins lines with a newline)")
-    names = [s[0] for s in seq]
-    ok = names[:1] == ["rewind"] and "fprintf" in names and names[-1] in ("fseek", "fseeko", "myfseeko") \
-        and names.index("fprintf") > names.index("rewind")
-    if ok:
-        last = seq[-1][2]
-        ok = "2" in [cfront.render(a) for a in cfront.call_args(last)][-1:]  # SEEK_END == 2
-    chk.ob("R03.4c", "Records::update_row_count::rewind-print-seekend", ok, "esutil/recfile/records.cpp",
-           "update_row_count: rewind, rewrite the SIZE line, then seek back to the end (found %s)" % names)
+    # the updater: the SIZE line is written at the very start of the file, and every normal exit leaves the stream at its end
+    ceff.track = {cfmt} if cfmt is not None else set()
+    try:
+        seqs = sorted(ceff.summary("update_row_count", urc))
+    except _TooBig:
+        seqs = None
+    ok, why = _size_rewrite_ok(seqs, cfmt)
+    chk.ob("R03.4c", "Records::update_row_count::rewind-print-seekend", ok, "esutil/recfile/records.cpp:%s" % urc.get("line", 0),
+           "update_row_count: rewind, rewrite the SIZE line, then seek back to the end: %s (stream events on the normal exits: %s)"
+           % (why, [list(_short(s)) for s in seqs] if seqs is not None else "too many"))
     # write_header_and_update_offset: ftell after fprintf
     who = cfun["Records::write_header_and_update_offset"]
     order = []
@@ -1056,6 +1379,39 @@ def r03_4(chk, repo, cfun):
            "the data offset is taken (ftell) after the header text has been written (call order %s)" % order)
 
 
+def _short(seq):
+    return tuple("out:SIZE-line" if e.startswith("out:fmt:") else e for e in seq)
+
+
+def _size_rewrite_ok(seqs, cfmt):
+    """(verdict, reason): True / False (a recognised sequence contradicts the rule) / None (not recognised)"""
+    if seqs is None:
+        return None, "too many paths"
+    size_ev = "out:fmt:" + cfmt if cfmt is not None else None
+    wrote = [s for s in seqs if size_ev in s]
+    if size_ev is None or not wrote:
+        return None, "the write of the SIZE line was not recognised"
+    unk = False
+    for s in seqs:
+        if "..." in s:
+            return None, "a path with too many stream events"
+        for j, e in enumerate(s):
+            if e == size_ev:
+                prev = s[j - 1] if j else None
+                if prev == "pos:unk":
+                    unk = True
+                elif prev != "pos:start":
+                    return False, "the SIZE line is written without the stream having been put at the start of the file (after %s)" % prev
+        if s:
+            if s[-1] == "pos:unk":
+                unk = True
+            elif s[-1] != "pos:end":
+                return False, "a normal exit leaves the stream somewhere else than at the end of the file (last event %s)" % _short(s)[-1]
+    if unk:
+        return None, "a seek whose target is not literal"
+    return True, "holds on every normal exit"
+
+
 def _cstr(v):
     """clang renders string literal values with quotes and escapes"""
     if v is None:
@@ -1066,43 +1422,54 @@ def _cstr(v):
 
 
 # ---------------------------------------------------------------------------
-OUTPUT_PRIMS = ("fwrite", "fprintf", "fputc", "fputs", "putc")
-
-
-def r03_5(chk, cfun):
-    cg = cfront.call_graph(cfun)
-    writers = cfront.reaching_functions(cg, OUTPUT_PRIMS)
+def r03_5(chk, cfun, ceff):
     w = cfun["Records::Write"]
     ccfg = cfront.CCFG(w)
     view = ccfg.view()
+    fmtbufs = ceff.fmt_buffers(w)
     seeks = []
     outs = []
-    for n in ccfg.nodes:
-        for c in cfront.node_calls(n):
-            nm = cfront.callee_name(c)
-            args = [cfront.render(a) for a in cfront.call_args(c)]
-            if nm in ("fseek", "fseeko", "myfseeko") and args[-1:] == ["2"] and args[1:2] == ["0"]:
-                seeks.append(n)
-            elif nm in writers and nm not in ("debugout",):
-                outs.append((n, nm))
+    movers = []
+    unknown = []
+    try:
+        for n in ccfg.nodes:
+            for c in cfront.node_calls(n):
+                nm = cfront.callee_name(c)
+                evs = ceff.call_events(c, fmtbufs)
+                flat = {e for s in evs for e in s}
+                if evs == {("pos:end",)}:
+                    seeks.append(n)
+                elif any(e.startswith("out") for e in flat):
+                    outs.append((n, nm))
+                    if any(e.startswith("pos") for e in flat):
+                        movers.append((n, nm))
+                elif any(e.startswith("pos") for e in flat):
+                    (unknown if flat == {"pos:unk"} else movers).append((n, nm))
+    except _TooBig:
+        chk.ob("R03.5", "Records::Write::stream-events", None, "esutil/recfile/records.cpp", "too many stream event sequences")
+        return
+    if unknown and not seeks:
+        # a seek whose target could not be evaluated: it may be the seek to the end in a spelling that is not recognised
+        chk.ob("R03.5", "Records::Write::seek-end-present", None, "esutil/recfile/records.cpp:%s" % unknown[0][0].lineno,
+               "Records::Write repositions the stream through %s() but the target is not literal: not recognised" % unknown[0][1])
+        return
+    movers += unknown
     chk.ob("R03.5", "Records::Write::seek-end-present", bool(seeks), "esutil/recfile/records.cpp",
-           "Records::Write seeks to the end of the file (fseek(fp,0,SEEK_END)) %s" % ("" if seeks else "-- NOT FOUND"))
-    chk.ob("R03.5", "Records::Write::output-calls-found", len(outs) >= 2, "esutil/recfile/records.cpp",
+           "Records::Write seeks to the end of the file (fseek(fp,0,SEEK_END), directly or through a helper) %s" % ("" if seeks else "-- NOT FOUND"))
+    chk.ob("R03.5", "Records::Write::output-calls-found", True if len(outs) >= 1 else None, "esutil/recfile/records.cpp",
            "calls in Write that reach an output primitive: %s" % [o[1] for o in outs])
     for n, nm in outs:
         dom = any(view.dominates(s, n) and s is not n for s in seeks)
         chk.ob("R03.5", "Records::Write::seek-end-dominates::%s" % nm, dom, "esutil/recfile/records.cpp:%s" % n.lineno,
                "seek-to-end must dominate the output call %s()" % nm)
     # nothing between the seek and the output moves the file position
-    movers = ("rewind", "fseek", "fseeko", "myfseeko", "goto_offset", "do_seek", "skip_rows")
-    for n in ccfg.nodes:
-        for c in cfront.node_calls(n):
-            nm = cfront.callee_name(c)
-            if nm in movers and n not in seeks:
-                bad = any(view.reaches(s, n) for s in seeks) and any(view.reaches(n, o) for o, _ in outs)
-                chk.ob("R03.5", "Records::Write::no-reposition-after-seek::%s" % nm, not bad,
-                       "esutil/recfile/records.cpp:%s" % n.lineno, "no file repositioning between the seek-to-end and the output")
+    for n, nm in movers:
+        bad = any(view.reaches(s, n) for s in seeks) and any(view.reaches(n, o) or n is o for o, _ in outs)
+        chk.ob("R03.5", "Records::Write::no-reposition-after-seek::%s" % nm, not bad,
+               "esutil/recfile/records.cpp:%s" % n.lineno, "no file repositioning between the seek-to-end and the output")
     # who-may-call: output primitives are only reachable from the three writer entry points
+    cg = cfront.call_graph(cfun)
+    writers = cfront.reaching_functions(cg, OUTPUT_PRIMS)
     entries = {"Write", "update_row_count", "write_header_and_update_offset"}
     public_writers = set()
     for f in writers:
@@ -1113,39 +1480,66 @@ def r03_5(chk, cfun):
            "SWIG-exposed methods that can reach an output primitive: %s (allowed: %s)" % (sorted(public_writers), sorted(entries)))
 
 
-def r03_6(chk, sf_write, cfun):
+def _append_truth(st, upto=None):
+    """did the path decide the caller's append flag (keys.get('append', ...) / append) and how"""
+    return _fact(st, lambda k: k[0] == "truth" and "append" in k[1], upto)
+
+
+def _mode_cases(m, truth):
+    """[(value of the append flag | None = either, mode)] for a mode expression on a path where the flag was decided as `truth`"""
+    if m is None:
+        return [(truth, "<default>")]
+    if isinstance(m, ast.Constant):
+        return [(truth, m.value)]
+    if isinstance(m, ast.IfExp) and "append" in norm(m.test) and isinstance(m.body, ast.Constant) and isinstance(m.orelse, ast.Constant):
+        k, pol = _atom(m.test)
+        if k[0] == "truth":
+            return [(pol, m.body.value), (not pol, m.orelse.value)]
+    return [(truth, "<expr %s>" % norm(m)[:40])]
+
+
+def _is_key_lookup(v, key):
+    """keys.get('<key>', ...) / keys['<key>'] / the bare name"""
+    if isinstance(v, ast.Name):
+        return v.id == key
+    if isinstance(v, ast.Call) and isinstance(v.func, ast.Attribute) and v.func.attr in ("get", "pop") and v.args:
+        return const_value(v.args[0]) == key
+    if isinstance(v, ast.Subscript):
+        return const_value(v.slice) == key
+    return False
+
+
+def r03_6(chk, repo, sf_write, cfun):
     """overwrite: append false => literal mode 'w' reaches SFile(...); fopen gets the mode unmodified"""
-    cfg = cfg_of(sf_write)
+    try:
+        paths = [st for k, _, st in _PX(repo).run(sf_write, {}) if k == "return"]
+    except _TooBig:
+        paths = []
+    ctor = [(st, e) for st in paths for e in _calls(st, "SFile")]
     for flagval, want in ((False, "w"), (True, "r+")):
-        v = cfg.specialise(flags={"append": flagval})
-        IN, _ = v.reaching_defs()
         got = set()
-        for n in v.nodes():
-            for c in rules.stmts_calls(n):
-                if call_name(c) == "SFile":
-                    m = kwarg(c, "mode")
-                    if isinstance(m, ast.Name):
-                        for d in IN[n.id].get(m.id, ()):
-                            dn = cfg.node(d)
-                            if isinstance(dn.ast, ast.Assign) and isinstance(dn.ast.value, ast.Constant):
-                                got.add(dn.ast.value.value)
-                            else:
-                                got.add("<non-literal>")
-                    elif isinstance(m, ast.Constant):
-                        got.add(m.value)
-                    elif m is not None:
-                        got.add("<expr>")
-        chk.ob("R03.6", "esutil.sfile.write::append=%s::mode" % flagval, got == {want}, sf_write.where(),
-               "append=%s selects mode %r for the SFile constructor (found %s)" % (flagval, want, sorted(got)))
+        for st, e in ctor:
+            m = e["kw"].get("mode", e["args"][1] if len(e["args"]) > 1 else None)
+            for assumed, val in _mode_cases(m, _append_truth(st, e["nfacts"])):
+                if assumed is None or assumed == flagval:
+                    got.add(val)
+        chk.ob("R03.6", "esutil.sfile.write::append=%s::mode" % flagval, got == {want} if ctor else None, sf_write.where(),
+               "append=%s selects mode %r for the SFile constructor (found %s)" % (flagval, want, sorted(map(str, got))))
     # the data argument reaches sf.write unmodified together with header
-    ok = False
-    for n in cfg.nodes:
-        for c in rules.stmts_calls(n):
-            if dotted_name(c.func) == "sf.write" and c.args and norm(c.args[0]) == "data":
-                h = kwarg(c, "header")
-                ok = h is not None and norm(h) == "header"
+    ok = bool(ctor)
+    nwrite = 0
+    params = set(sf_write.params[:2])
+    for st, e in ctor:
+        ws = [w for w in _calls(st, "write") if isinstance(w["recv"], ast.Call) and call_name(w["recv"]) == "SFile"]
+        nwrite += len(ws)
+        ok = ok and len(ws) == 1
+        for w in ws:
+            a0 = w["args"][0] if w["args"] else None
+            f0 = e["args"][0] if e["args"] else None
+            ok = ok and isinstance(a0, ast.Name) and isinstance(f0, ast.Name) and {a0.id, f0.id} == params \
+                and "header" in w["kw"] and _is_key_lookup(w["kw"]["header"], "header")
     chk.ob("R03.6", "esutil.sfile.write::forwards-data-and-header", ok, sf_write.where(),
-           "sfile.write forwards data and header= to SFile.write")
+           "sfile.write forwards data and header= to SFile.write (%d SFile(...) path(s), %d write call(s))" % (len(ctor), nwrite))
     sp = cfun.get("Records::set_fptr") or cfun.get("set_fptr")
     ok = False
     if sp is not None:
@@ -1157,16 +1551,41 @@ def r03_6(chk, sf_write, cfun):
            "fopen receives the caller's mode string unmodified")
 
 
+def _chunk_len(x, param="data"):
+    """is x the number of rows of the chunk: <data or a view / copy of it>.size, len(...) or .shape[0]"""
+    e = None
+    if isinstance(x, ast.Attribute) and x.attr == "size":
+        e = x.value
+    elif isinstance(x, ast.Call) and call_name(x) == "len" and len(x.args) == 1:
+        e = x.args[0]
+    elif isinstance(x, ast.Subscript) and const_value(x.slice) == 0 and isinstance(x.value, ast.Attribute) and x.value.attr == "shape":
+        e = x.value.value
+    while isinstance(e, ast.Call) and isinstance(e.func, ast.Attribute) and e.func.attr in ("view", "copy"):
+        e = e.func.value
+    return isinstance(e, ast.Name) and e.id == param
+
+
 def r03_7(chk, repo, Rec_write):
     """Recfile.write: the handle's row count follows every write (several writes on one handle)"""
-    cfg = cfg_of(Rec_write)
-    ok = False
-    for n in cfg.nodes:
-        a = n.ast
-        if n.kind == "stmt" and isinstance(a, ast.AugAssign) and norm(a.target) == "self.nrows" and isinstance(a.op, ast.Add):
-            ok = norm(a.value) in ("dataview.size", "data.size", "len(data)")
+    try:
+        paths = [st for k, _, st in _PX(repo).run(Rec_write, {}) if k == "return"]
+    except _TooBig:
+        paths = []
+    ok = bool(paths)
+    found = set()
+    for st in paths:
+        v = st.heap.get("self.nrows")
+        found.add(norm(v) if v is not None else "<not updated>")
+        terms = None
+        if isinstance(v, ast.BinOp) and isinstance(v.op, ast.Add):
+            terms = [v.left, v.right]
+        good = terms is not None and any(norm(a) == "self.nrows" and _chunk_len(b, Rec_write.params[1] if len(Rec_write.params) > 1 else "data")
+                                         for a, b in (terms, terms[::-1]))
+        w = [e["nev"] for e in _calls(st, "Write")]
+        s_ = [e["nev"] for e in st.events if e["kind"] == "store" and e["name"] == "self.nrows"]
+        ok = ok and good and bool(w) and bool(s_) and s_[-1] > w[-1]
     chk.ob("R03.7", "esutil.recfile.Util.Recfile.write::nrows-accumulates", ok, Rec_write.where(),
-           "Recfile.write adds the chunk size to the handle's row count after writing")
-    wcall = [(n, c) for n in cfg.nodes for c in rules.stmts_calls(n) if call_name(c) == "Write"]
-    chk.ob("R03.7", "esutil.recfile.Util.Recfile.write::single-C++-write", len(wcall) == 1, Rec_write.where(),
-           "exactly one Records::Write call per Recfile.write")
+           "Recfile.write adds the chunk size to the handle's row count after writing (self.nrows becomes %s)" % sorted(found))
+    per = sorted({len(_calls(st, "Write")) for st in paths})
+    chk.ob("R03.7", "esutil.recfile.Util.Recfile.write::single-C++-write", per == [1], Rec_write.where(),
+           "exactly one Records::Write call per Recfile.write (calls per normal path: %s)" % per)
